@@ -251,6 +251,10 @@ class CallsMixin:
             return r.value
         finally:
             frames.pop()
+            ll = getattr(self, "last_locals", None)
+            if ll is None:
+                ll = self.last_locals = {}
+            ll[qn] = f2.locals
         return None
 
     def bind_params(self, a: ast.arguments, args, kwargs, f2: Frame, qn):
@@ -475,6 +479,8 @@ class CallsMixin:
 
     def b_len(self, a, k, fr):
         v = a[0]
+        if type(v).__name__ == "Bottom":
+            return v
         if isinstance(v, SymOpt):
             if self.ctx.branch(v.is_none, "isNone"):
                 raise mk_exc(TypeError, "len(None)", where=fr.where())
